@@ -33,13 +33,20 @@ def walk(rng, story, n_ops, variant="main", weights=None, per_call_s=5.0):
         ops, steps = [], []
         names = list(story["passages"].keys())
         kinds = list(w.keys())
+        taken, again = [], None      # accepted choice indices; the index just undone (to take the same choice again)
+        rechoose = w.pop("rechoose", 0)
+        kinds = list(w.keys())
         for _ in range(n_ops):
             cur = rp.engine._current_output
             n = len(cur.choices) if cur is not None else 0
             k = rng.choices(kinds, [w[x] for x in kinds])[0]
+            if again is not None and again < n and rng.random() < rechoose:
+                k = "again"
             if k == "choose" and n == 0:
                 k = rng.choice(["undo", "goto", "read"])
-            if k == "choose":
+            if k == "again":
+                op = {"op": "choose", "i": again}
+            elif k == "choose":
                 op = {"op": "choose", "i": rng.randrange(n)}
             elif k == "bad":
                 op = {"op": "choose", "i": rng.choice([-1, -2, n, n + 1, n + 7])}
@@ -73,6 +80,16 @@ def walk(rng, story, n_ops, variant="main", weights=None, per_call_s=5.0):
                     op = {"op": "load_bad", "kind": "notDict"}
             ops.append(op)
             steps.append(rp.op(op))
+            resp = steps[-1]["resp"]
+            if op["op"] == "choose" and 0 <= op["i"] < n:
+                taken.append(op["i"])
+                again = None
+            elif op["op"] == "undo" and resp.get("ret") is True and taken:
+                again = taken.pop()
+            elif op["op"] not in READS:
+                again = None
+                if op["op"] != "redo":
+                    taken = taken if op["op"] in ("save",) else ([] if op["op"] in ("load", "fresh_load") else taken)
         return ops, {"status": "ok", "init": init, "steps": steps, "timeouts": rp.timeouts}
     except real_play.Unmodelled as u:
         return [], {"status": "unmodelled", "notes": [str(u)]}
